@@ -5,7 +5,7 @@
     [f : fixes] selects the code: [fx_none] = the pinned tree, [fx<n> f = true]
     = after fixes/C10-F<n>.diff.  A guard is [false] whenever its fix is applied, so
     every theorem below is unguarded for the repaired code. *)
-From HV Require Import Base.Prelude Base.Time C10.Model C10.Proofs Run.Eval_C10 C10.Sound.
+From HV Require Import Base.Prelude Base.Time C10.Model C10.Proofs Run.Eval_C10 C10.Sound C10.SoundHist.
 Open Scope Z_scope.
 
 (** an introspection response / JWK / session / access token is stored only with
@@ -150,7 +150,7 @@ Print Assumptions C10_nonvacuous.
     [Run.Eval_C10.check f c] computes, for a generated case [c] and the
     implementation's observation in it: [v_corr] (the model answers like the
     implementation), [v_prop] (the property predicate, written from the property
-    text, on the observation) and the finding guards.  For EVERY case of the four
+    text, on the observation) and the finding guards.  For EVERY case of the five
     kinds below -- all inputs, all observations -- correspondence without a firing
     guard implies the property predicate: a property failure on an unguarded input
     is always a disagreement between implementation and model. *)
@@ -182,3 +182,15 @@ Theorem C10_check_sound_cache : forall f b ops,
   v_corr v = true -> v_guards v = [] -> v_prop v = true.
 Proof. exact check_sound_cache. Qed.
 Print Assumptions C10_check_sound_cache.
+
+(** request histories, both cache semantics, mechanisms and the round tripper.
+    [hist_wf] (C10/SoundHist.v) is what the driver guarantees about a recorded
+    history: request instants do not decrease, every remote answer carries a
+    fresh payload id, a mechanism without expiry information reports none, and
+    every ttl the model computes exceeds the measurement slack. *)
+Theorem C10_check_sound_hist : forall f b hk slack evs obs,
+  hist_wf f hk slack evs ->
+  let v := check f (CHist b hk slack evs obs) in
+  v_corr v = true -> v_guards v = [] -> v_prop v = true.
+Proof. exact check_sound_hist. Qed.
+Print Assumptions C10_check_sound_hist.
